@@ -167,12 +167,22 @@ def run_case(case):
 
 def _step(rep, obj, op, hist, cls):
     """Apply op.  True = new state; False = raised (checked atomic) or pruned."""
-    before = e1.exact_state(obj)
+    if op.startswith("set:") or op.startswith("core:set:"):
+        # the harness reads the current value to compute the target; do that read before the snapshot, so
+        # that a memo it fills is not mistaken for an effect of a setter that raises
+        try:
+            tgt = obj if op.startswith("set:") else (getattr(obj, "polyhedron", None) or getattr(obj, "polygon", None))
+            getattr(tgt, op.split(":")[-1].split("*")[0].split("=")[0])
+        except Exception:
+            pass
+    tree = e1.key_tree(obj)
+    before = e1.exact_state_on(obj, tree)
     rep.transitions += 1
     try:
         e1.apply_op(obj, op)
     except Exception as ex:
-        after = e1.exact_state(obj)
+        # fields that existed before must be bit-identical; private memo fields may have appeared
+        after = e1.exact_state_on(obj, tree)
         if after != before:
             rep.violation("atomicity", cls, op.split("*")[0].split("=")[0], "raise-not-atomic", {"base": None, "prefix": list(hist), "depth": len(hist)}, "%s raised %s but changed the object" % (op, type(ex).__name__))
         else:
